@@ -335,6 +335,7 @@ fn read_morphs<T: DictionaryAccess>(ml: &MorphemeList<T>) -> (Vec<MorphOut>, Opt
             Ok(m) => out.push(m),
             Err(p) => {
                 let before: Vec<(usize, usize)> = out.iter().rev().take(3).rev().map(|m| (m.b, m.e)).collect();
+                let p: String = p.chars().take(160).collect();
                 let msg = format!("morpheme {} of {}: begin/end/begin_c/end_c/surface panicked ({}); byte ranges of the morphemes before it: ..{:?}", i, ml.len(), p, before);
                 return (out, Some(msg));
             }
@@ -830,8 +831,11 @@ fn gen_stack(rng: &mut Rng) -> Stack {
 /// followed by ordinary text, so that the limit is crossed by the last edit, in the middle of the edits, or not at all.
 /// Every such input must be rejected, or accepted and partitioned.
 fn gen_limit_text(rng: &mut Rng) -> Text {
+    if rng.chance(1, 2) {
+        return gen_plain_limit_text(rng);
+    }
     // (character, bytes before, bytes after NFKC)
-    let (c, before, after) = *rng.pick(&[("㍿", 3usize, 12usize), ("㌀", 3, 12), ("\u{FDFA}", 3, 33), ("㈱", 3, 5), ("あ", 3, 3), ("a", 1, 1)]);
+    let (c, before, after) = *rng.pick(&[("㍿", 3usize, 12usize), ("㌀", 3, 12), ("\u{FDFA}", 3, 33), ("㈱", 3, 5)]);
     let fits_out = 65535 / after;
     let fits_in = 49149 / before;
     let k = match rng.below(6) {
@@ -850,6 +854,33 @@ fn gen_limit_text(rng: &mut Rng) -> Text {
     parts.push((c.to_string(), k));
     if rng.chance(1, 2) {
         parts.push(((*rng.pick(&["京都に行く", "ーー", "１２", "。"])).to_string(), 1 + rng.below(3) as usize));
+    }
+    Text(parts)
+}
+
+/// texts that NO input-text plugin edits (runs of one plain 1/2/3/4-byte character, optionally with ordinary words around),
+/// with byte lengths just below / at / just above the input limit (49149), around 65535 (where u16 byte offsets end) and
+/// far above, while the number of CHARACTERS may still be small: limits counted in the wrong unit show up here
+fn gen_plain_limit_text(rng: &mut Rng) -> Text {
+    let (c, w) = *rng.pick(&[("あ", 3usize), ("漢", 3), ("ア", 3), ("😀", 4), ("𠮷", 4), ("é", 2), ("a", 1)]);
+    let bytes = match rng.below(8) {
+        0 => 49149 - rng.below(8) as usize,
+        1 => 49150 + rng.below(3) as usize,
+        2 => 49152 + rng.below(400) as usize,
+        3 => 65535 - rng.below(8) as usize,
+        4 => 65536 + rng.below(8) as usize,
+        5 => 65536 + rng.below(3000) as usize,
+        6 => 65536 + rng.below(81000) as usize, // up to 49149 three-byte characters
+        _ => 49149 * w - rng.below(5) as usize * w, // about 49149 CHARACTERS
+    };
+    let k = (bytes + w - 1) / w;
+    let mut parts = vec![];
+    if rng.chance(1, 3) {
+        parts.push(((*rng.pick(&["東京都に行った", "京都"])).to_string(), 1));
+    }
+    parts.push((c.to_string(), k));
+    if rng.chance(1, 2) {
+        parts.push(((*rng.pick(&["京都に行く", "東京都", "に"])).to_string(), 1 + rng.below(3) as usize));
     }
     Text(parts)
 }
@@ -966,10 +997,29 @@ pub fn pipeline(which: Prop, sink: &mut Sink, args: &Args, rng: &mut Rng) {
         }
         // the two length limits
         if which == Prop::C01 {
-            for _ in 0..args.n(14, 60) {
+            // with the full plugin stack and with no input-text plugin at all
+            let bare = Stack { input: vec![], oov: 0, rewrite: 0 };
+            let dict_bare = load(&built[&(0, 0)], &bare).expect("bare configuration loads");
+            for k in 0..args.n(20, 80) {
                 let t = gen_limit_text(rng);
                 let mode = rng.below(3) as u8;
-                run_one(sink, &dict, &t, mode, None, &full, &ds0, false);
+                if k % 2 == 0 {
+                    run_one(sink, &dict, &t, mode, None, &full, &ds0, false);
+                } else {
+                    run_one(sink, &dict_bare, &t, mode, None, &bare, &ds0, false);
+                }
+                sink.tag("around_the_length_limits");
+            }
+            // every run: un-edited runs of a 2/3/4-byte character just above 65535 bytes, in the middle between that and
+            // 49149 characters, and of exactly 49149 characters -- with and without input-text plugins
+            for (c, w) in [("あ", 3usize), ("😀", 4), ("é", 2), ("漢", 3)] {
+                for k in [65536 / w + 1, (65536 / w + 49149) / 2, 49149] {
+                    let t = Text(vec![(c.to_string(), k), ("京都".to_string(), 1)]);
+                    run_one(sink, &dict_bare, &t, 2, None, &bare, &ds0, false);
+                    sink.tag("around_the_length_limits");
+                }
+                let t = Text(vec![("東京都".to_string(), 1), (c.to_string(), 65536 / w + 7)]);
+                run_one(sink, &dict, &t, 0, None, &full, &ds0, false);
                 sink.tag("around_the_length_limits");
             }
             // ... and inside a session: the tokenizer must stay usable and must not hand out a truncated analysis
